@@ -245,6 +245,25 @@ Theorem C15_context_error_origins :
 Proof. exact context_error_origins. Qed.
 Print Assumptions C15_context_error_origins.
 
+(* child processes: the Cmd is built by exec.CommandContext / exec.Command and WaitDelay (250 ms) is set on
+   every path before execShell returns it, with and without a context *)
+Theorem C15_child_wait_is_bounded_on_every_path :
+  forallb (fun r => String.eqb (snd r) "yes") exec_shell_returns = true /\
+  exec_shell_returns <> [] /\
+  exec_shell_makes = [("CommandContext", "cmd"); ("Command", "cmd")]%string /\
+  waitdelay_writes = [("interp.execShell", "cmd.WaitDelay = 250 * time.Millisecond")]%string.
+Proof. exact exec_shell_sets_waitdelay_on_every_path. Qed.
+Print Assumptions C15_child_wait_is_bounded_on_every_path.
+
+Theorem C15_exec_shell_source :
+  exec_shell_body =
+  ["executable := p.shellCommand[0]"; "args := p.shellCommand[1:]"; "args = append(args, code)";
+   "var cmd *exec.Cmd";
+   "if p.checkCtx { cmd = exec.CommandContext(p.ctx, executable, args...) } else { cmd = exec.Command(executable, args...) }";
+   "cmd.WaitDelay = 250 * time.Millisecond"; "return cmd"]%string.
+Proof. exact exec_shell_source. Qed.
+Print Assumptions C15_exec_shell_source.
+
 Theorem C15_execute_called_only_from :
   execute_sites = [("interp.executeAll", "p.program.Compiled.Begin"); ("interp.executeAll", "p.program.Compiled.End");
                    ("interp.execActions", "action.Pattern[0]"); ("interp.execActions", "action.Pattern[0]");
